@@ -417,10 +417,42 @@ def unit_stat(ctx, kind, configs, N):
         check_stat(ctx, None, {"kind": kind, "mode": mode, "value": value, "complex": cplx, "signal_power": ps, "N": N, "seed": ctx.seed})
 
 
+def unit_finite(ctx, chunks, offset=0):
+    """Noise samples are finite: 2^24 Laplacian samples per chunk (the inverse-CDF construction has log(0) at a uniform draw of exactly 0,
+    which happens about once per 2^24 draws: 8 chunks meet it with probability 1 - e^-8), for the scale, power and SNR parameterisations."""
+    import torch
+    import kaira.channels as C
+    x = torch.ones(2 ** 24)
+    for i in range(offset, offset + chunks):
+        kw = [{"scale": 0.7}, {"avg_noise_power": 2.0}, {"snr_db": 3.0}][i % 3]
+        cell = {"channel": "laplacian", "mode": "finite_samples", "param": list(kw)[0]}
+        case = {"chunk": i, "seed": ctx.seed, **kw}
+        torch.manual_seed(ctx.seed * 1000 + i)
+        ok, y = ctx.call(lambda: C.LaplacianChannel(**kw)(x), "C07.raises", cell, case, checker="c07:replay_finite")
+        if not ok:
+            continue
+        ctx.ev(x.numel())
+        n = y - x
+        ctx.check(bool(torch.isfinite(n).all()), "C07.g_noise_finite", cell, case, float(n.min()), "finite", "a noise sample is infinite or NaN (the added noise power is then infinite)", "c07:replay_finite")
+        ctx.nontrivial("finite", i)
+    ctx.sample({"samples_per_chunk": 2 ** 24, "chunks": chunks})
+
+
+def replay_finite(ctx, cell, case):
+    import torch
+    import kaira.channels as C
+    kw = {k: v for k, v in case.items() if k in ("scale", "avg_noise_power", "snr_db")}
+    torch.manual_seed(case["seed"] * 1000 + case["chunk"])
+    x = torch.ones(2 ** 24)
+    n = C.LaplacianChannel(**kw)(x) - x
+    ctx.check(bool(torch.isfinite(n).all()), "C07.g_noise_finite", cell, case, float(n.min()), "finite", "a noise sample is infinite or NaN", "c07:replay_finite")
+
+
 def units(tier, seed):
     T = tier == "thorough"
     N = 32_000_000 if T else 4_000_000
     us = [Unit("verbatim", "c07:unit_verbatim", {}, 1), Unit("conversions", "c07:unit_conversions", {}, 1), Unit("reuse", "c07:unit_reuse", {}, 2)]
+    us += [Unit(f"laplacian_finite_{j}", "c07:unit_finite", {"chunks": 12 if T else 3, "offset": 100 * j}, 4) for j in range(3)]
     for kind in ("awgn", "laplacian", "nonlinear_id", "nonlinear_id_cartesian", "nonlinear_id_polar", "nonlinear_cubic", "fading_stage"):
         us.append(Unit(f"deterministic_{kind}", "c07:unit_deterministic", {"kind": kind}, 3))
     cfgs = []
